@@ -91,6 +91,14 @@ def create(b, name, model, variant):
     if variant == "names+dtypes":
         return b.create_data_frame(name, "t", col_names=list(model.names), col_dtypes=[str if t == "text" else PYT[t] for t in model.types],
                                    data=rows if rows else None)
+    if variant in ("col_dict-builtin", "names+dtypes-builtin"):
+        # the column types given as Python's builtin types (bool is a subclass of int!)
+        BUILTIN = {"text": str, "int64": int, "float64": float, "bool": bool, "int8": np.int8}
+        if variant == "col_dict-builtin":
+            cd = OrderedDict((n, BUILTIN[t]) for n, t in zip(model.names, model.types))
+            return b.create_data_frame(name, "t", col_dict=cd, data=rows if rows else None)
+        return b.create_data_frame(name, "t", col_names=list(model.names), col_dtypes=[BUILTIN[t] for t in model.types],
+                                   data=rows if rows else None)
     if variant == "names+data":
         pyrows = [tuple({"text": str, "int64": int, "float64": float, "bool": bool}[t](v) for v, t in zip(row, model.types)) for row in rows]
         return b.create_data_frame(name, "t", col_names=list(model.names), data=pyrows)
@@ -202,6 +210,8 @@ def enabled(m, tier):
         ops.append(("bad", "write_column-single-entry-by-index"))
         ops.append(("bad", "append_column-single-entry"))
     if n >= 1:
+        ops.append(("bad", "write_rows-negative-index-below-first-row"))
+        ops.append(("bad", "write_rows-negative-index-twice-below"))
         ops.append(("bad", "write_cell-column-out-of-range"))
         ops.append(("bad", "write_column-index-out-of-range"))
     if n >= 1:
@@ -288,6 +298,10 @@ def apply(df, m, op, k):
             df.write_column([], name=m.names[0])
         elif kind == "append_column-single-entry":
             df.append_column([1], "zz_new", datatype=np.int64)
+        elif kind == "write_rows-negative-index-below-first-row":
+            df.write_rows([tuple(val(t, 2) for t in m.types)], [-n - 1])
+        elif kind == "write_rows-negative-index-twice-below":
+            df.write_rows([tuple(val(t, 2) for t in m.types)], [-2 * n])
         elif kind == "write_cell-column-out-of-range":
             df.write_cell(val(m.types[0], 1), position=[0, len(m.names)])
         elif kind == "write_column-index-out-of-range":
@@ -309,7 +323,7 @@ def opkind(op):
 
 
 def BOUNDS(tier):
-    return {"schemas": SCHEMAS_Q if tier == "quick" else SCHEMAS_T, "variants": 4, "initial_rows": [0, 2, 3],
+    return {"schemas": SCHEMAS_Q if tier == "quick" else SCHEMAS_T, "variants": 6, "initial_rows": [0, 2, 3],
             "depth": 2 if tier == "quick" else 3}
 
 
@@ -317,7 +331,7 @@ def cases(tier):
     schemas = SCHEMAS_Q if tier == "quick" else SCHEMAS_T
     d = 2 if tier == "quick" else 3
     for si, sch in enumerate(schemas):
-        for variant in ("col_dict", "names+dtypes", "names+data", "structured"):
+        for variant in ("col_dict", "names+dtypes", "names+data", "structured", "col_dict-builtin", "names+dtypes-builtin"):
             if variant == "names+data" and "int8" in sch:
                 continue
             for nrows in (0, 2, 3):
